@@ -113,6 +113,22 @@ def contracts():
                            _hash=TVal)),
       ensures=['result >= %s' % (SZ % 'self._d')], serves=('C08',),
       native=False)
+    # equal yaql dicts hash alike whatever order their entries were written
+    # in (they are set members and dict keys): two entries, both orders
+    XOR = 'ufn("int.BitXor", %s, %s, ret="Int")'
+    H0, H1 = 'hash((K0, V0))', 'hash((K1, V1))'
+    c(U + 'FrozenDict.__hash__', name='utils.FrozenDict.__hash__/any-order',
+      params=dict(self=fd_pair()),
+      # bitwise xor on unbounded integers is uninterpreted in the encoding;
+      # its algebra (T-int: commutative, associative, 0 neutral) is stated
+      # (stated on the two pair hashes only - ground facts, so that a
+      # violation still comes with a counter-model)
+      requires=['%s == %s' % (XOR % (H0, H1), XOR % (H1, H0)),
+                '%s == %s and %s == %s' % (XOR % ('0', H0), H0,
+                                           XOR % ('0', H1), H1)],
+      after='def after(h):\n    return (h, OTHER.__hash__())\n',
+      ensures=['result[0] == result[1]'], serves=('C13', 'C04'),
+      native=False)
     # ---- convert_output_data (C10 / C08): every container level is rebuilt
     # fresh, through the limiter, keys AND values / elements recursively ----
     for tl in (True, False):
@@ -243,6 +259,22 @@ class dict2:
         k0, v0, k1, v1 = (TVal.fresh(n) for n in ('K0', 'V0', 'K1', 'V1'))
         path.ghost.update(K0=k0, V0=v0, K1=k1, V1=v1)
         return {k0: v0, k1: v1}
+
+
+class fd_pair:
+    """A FrozenDict with two opaque entries; ghost OTHER: an equal
+    FrozenDict whose entries were written in the opposite order."""
+    is_factory = True
+
+    def __call__(self, name, path):
+        k0, v0, k1, v1 = (TVal.fresh(n) for n in ('K0', 'V0', 'K1', 'V1'))
+        path.ghost.update(K0=k0, V0=v0, K1=k1, V1=v1)
+        mk = obj('yaql.language.utils.FrozenDict', _d=None, _hash=None)
+        a, b = mk(name, path), mk('OTHER', path)
+        a.fields['_d'] = {k0: v0, k1: v1}
+        b.fields['_d'] = {k1: v1, k0: v0}
+        path.ghost['OTHER'] = b
+        return a
 
 
 class fset1:
